@@ -31,7 +31,7 @@ structure Sys where
   queue : List Entry
   t : Rat
   ctr : Nat
-deriving Repr
+deriving Repr, DecidableEq
 
 def init : Sys := { queue := [], t := 0, ctr := 0 }
 
@@ -48,8 +48,12 @@ def addAll (s : Sys) : List (Rat × Nat) → Sys
   | [] => s
   | (time, id) :: rest => addAll (addCallback s time id) rest
 
-/-- the coalescing threshold `1e-6` -/
-def eps : Rat := 1 / 1000000
+/-- the coalescing threshold: the *exact* value of the IEEE-754 double the literal `1e-6` of
+`evolve_until` denotes, `4722366482869645 · 2⁻⁷²` (slightly below `10⁻⁶`).  The harness reads the
+constant out of the running code object and compares it with this number (driver op `eps`);
+`Properties/C20.lean` proves that no double lies strictly between it and `10⁻⁶`
+(`eps_decimal_bridge`), so for double `dt` the test `dt > eps` is the test `dt > 10⁻⁶`. -/
+def eps : Rat := 4722366482869645 / 4722366482869645213696
 
 /-- `if integration_time > 1e-6: integrate(dt); t += dt` -/
 def advance (s : Sys) (dt : Rat) : Sys × List Event :=
@@ -58,7 +62,6 @@ def advance (s : Sys) (dt : Rat) : Sys × List Event :=
 inductive Status where
   | ok
   | backwards           -- ValueError('Backwards evolution is not allowed.')
-  | emptyQueue          -- IndexError from `self.callbacks[0]` (the code before the repair)
   | outOfFuel
 deriving Repr, DecidableEq
 
@@ -67,7 +70,7 @@ structure Run where
   status : Status
   s : Sys
   trace : List Event
-deriving Repr
+deriving Repr, DecidableEq
 
 /-- The `while not end` loop of the repaired `evolve_until`: an empty queue, or a head at or
 beyond the horizon, ends the evolution. -/
@@ -90,23 +93,47 @@ def loop (kids : Entry → List (Rat × Nat)) (T : Rat) : Nat → Sys → Run
 def evolveUntil (kids : Entry → List (Rat × Nat)) (fuel : Nat) (s : Sys) (T : Rat) : Run :=
   if T < s.t then ⟨.backwards, s, []⟩ else loop kids T fuel s
 
-/-- The loop as it stood before the `fix:` commit: `self.callbacks[0]` is read unconditionally. -/
-def loopOld (kids : Entry → List (Rat × Nat)) (T : Rat) : Nat → Sys → Run
+/-! ### Callbacks that read the clock (`add_callback(self.t + period, ...)`, the docstring idiom)
+
+The clock a callback sees may rest up to `eps` below the callback's own time (coalescing), so what
+a clock-reading callback schedules is not a function of its queue entry alone.  `loopC` is `loop`
+with the clock handed to the callbacks.  It is tied back to `loop` (the object of the theorems of
+Properties/C20.lean) by `fireTable`/`tableKids`: the table of what each executed callback
+scheduled, read as an entry-only `kids` function, replays the very same run
+(`loopC_eq_loop_table`), so every theorem about `loop` holds of `loopC` runs. -/
+
+/-- `loop` with callbacks that see the clock: `kidsC clock e`. -/
+def loopC (kidsC : Rat → Entry → List (Rat × Nat)) (T : Rat) : Nat → Sys → Run
   | 0, s => ⟨.outOfFuel, s, []⟩
   | fuel + 1, s =>
     match s.queue with
     | e :: rest =>
       if e.time < T then
         let a := advance { s with queue := rest } (e.time - s.t)
-        let r := loopOld kids T fuel (addAll a.1 (kids e))
+        let r := loopC kidsC T fuel (addAll a.1 (kidsC a.1.t e))
         { r with trace := a.2 ++ Event.fire e a.1.t :: r.trace }
       else
         let a := advance s (T - s.t)
         ⟨.ok, a.1, a.2⟩
-    | [] => ⟨.emptyQueue, s, []⟩
+    | [] =>
+      let a := advance s (T - s.t)
+      ⟨.ok, a.1, a.2⟩
 
-def evolveUntilOld (kids : Entry → List (Rat × Nat)) (fuel : Nat) (s : Sys) (T : Rat) : Run :=
-  if T < s.t then ⟨.backwards, s, []⟩ else loopOld kids T fuel s
+def evolveUntilC (kidsC : Rat → Entry → List (Rat × Nat)) (fuel : Nat) (s : Sys) (T : Rat) : Run :=
+  if T < s.t then ⟨.backwards, s, []⟩ else loopC kidsC T fuel s
+
+/-- What each callback executed in a trace scheduled, given the clock it saw. -/
+def fireTable (kidsC : Rat → Entry → List (Rat × Nat)) : List Event → List (Entry × List (Rat × Nat))
+  | [] => []
+  | Event.integrate _ :: tr => fireTable kidsC tr
+  | Event.fire e clk :: tr => (e, kidsC clk e) :: fireTable kidsC tr
+
+/-- A table of executed callbacks read as an entry-only `kids` function (first match; `[]` for
+entries that never ran). -/
+def tableKids (tbl : List (Entry × List (Rat × Nat))) (e : Entry) : List (Rat × Nat) :=
+  match tbl.find? (fun p => p.1 = e) with
+  | some p => p.2
+  | none => []
 
 /-- Sum of the integration intervals of a trace. -/
 def sumDt : List Event → Rat
@@ -157,21 +184,80 @@ structure Hist where
   hz : Rat
   trace : List Event
   created : List Entry
-deriving Repr
+deriving Repr, DecidableEq
 
 def hinit : Hist := { s := init, hz := 0, trace := [], created := [] }
 
-/-- One interface call on a history.  A refused (backwards) `evolve_until` changes nothing. -/
+/-- One interface call on a history.  State, trace and created entries are always taken from what
+`evolveUntil` returns — that a refused (backwards) call changes nothing is a *theorem*
+(`stepOp_backwards`, from `backwards_refused`), not part of this definition; only `hz`, by its
+meaning "largest *accepted* target", looks at the status. -/
 def stepOp (kids : Entry → List (Rat × Nat)) (fuel : Nat) (h : Hist) : Op → Hist
   | .add time id =>
     { h with s := addCallback h.s time id, created := h.created ++ [⟨time, h.s.ctr, id⟩] }
   | .evolve T =>
     let r := evolveUntil kids fuel h.s T
-    if r.status = .backwards then h else
-    { s := r.s, hz := if h.hz < T then T else h.hz, trace := h.trace ++ r.trace,
+    { s := r.s, hz := if r.status = .backwards then h.hz else if h.hz < T then T else h.hz,
+      trace := h.trace ++ r.trace,
       created := h.created ++ spawned kids h.s.ctr (fired r.trace) }
+
+/-- consecutive entries strictly increasing in `(time, counter)`; equivalent to `List.Pairwise
+Entry.lt` (`sortedB_iff` in Lemmas/SchedulerStrong.lean), printed by the driver op `hist` -/
+def sortedB : List Entry → Bool
+  | x :: y :: rest => decide (x.lt y) && sortedB (y :: rest)
+  | _ => true
+
+/-- The clock shown to the last callback of a trace (`t` if none ran): the clock from which the final
+stretch to the target is bridged. -/
+def lastFireClock : Rat → List Event → Rat
+  | t, [] => t
+  | t, Event.integrate _ :: tr => lastFireClock t tr
+  | _, Event.fire _ clk :: tr => lastFireClock clk tr
 
 def runOps (kids : Entry → List (Rat × Nat)) (fuel : Nat) (h : Hist) (ops : List Op) : Hist :=
   ops.foldl (stepOp kids fuel) h
+
+/-- A history with clock-reading callbacks: the history together with the table of what every
+callback executed so far scheduled. -/
+structure HistC where
+  h : Hist
+  tbl : List (Entry × List (Rat × Nat))
+deriving Repr, DecidableEq
+
+def hinitC : HistC := { h := hinit, tbl := [] }
+
+/-- One interface call with clock-reading callbacks `kidsC`: the run of `evolveUntilC` extends the
+table; the history is advanced by `stepOp` — the object of the history theorems — with the table
+read as entry-only callbacks.  That this `stepOp` reproduces the `evolveUntilC` run is a theorem
+(`stepOpC_evolve_run`), and so is that the whole history is `runOps` with the final table
+(`runOpsC_eq_runOps`). -/
+def stepOpC (kidsC : Rat → Entry → List (Rat × Nat)) (fuel : Nat) (hc : HistC) : Op → HistC
+  | .add time id => { hc with h := stepOp (tableKids hc.tbl) fuel hc.h (.add time id) }
+  | .evolve T =>
+    let tbl := hc.tbl ++ fireTable kidsC (evolveUntilC kidsC fuel hc.h.s T).trace
+    { h := stepOp (tableKids tbl) fuel hc.h (.evolve T), tbl := tbl }
+
+def runOpsC (kidsC : Rat → Entry → List (Rat × Nat)) (fuel : Nat) (hc : HistC) (ops : List Op) : HistC :=
+  ops.foldl (stepOpC kidsC fuel) hc
+
+/-! ### The hypotheses of the history theorems, executable
+
+`history_inv` / `history_exactly_once` assume `AddsFrom f` (every `add_callback(t, ·)` of the
+history was issued in a state `h` with `f h ≤ t`) and `NoFuelOut` (every `evolve_until` returned).
+These walk the history and decide them (`addsFromB_iff`, `noFuelOutB_iff`); the driver prints them
+with `hist` and the harness compares them with its own classification of the real history, which
+gates the oracle's order-across-calls and clock-ahead clauses. -/
+
+def addsFromB (f : Hist → Rat) (kids : Entry → List (Rat × Nat)) (fuel : Nat) : Hist → List Op → Bool
+  | _, [] => true
+  | h, .add t id :: ops => decide (f h ≤ t) && addsFromB f kids fuel (stepOp kids fuel h (.add t id)) ops
+  | h, .evolve T :: ops => addsFromB f kids fuel (stepOp kids fuel h (.evolve T)) ops
+
+def noFuelOutB (kids : Entry → List (Rat × Nat)) (fuel : Nat) : Hist → List Op → Bool
+  | _, [] => true
+  | h, .add t id :: ops => noFuelOutB kids fuel (stepOp kids fuel h (.add t id)) ops
+  | h, .evolve T :: ops =>
+    decide ((evolveUntil kids fuel h.s T).status ≠ .outOfFuel) &&
+      noFuelOutB kids fuel (stepOp kids fuel h (.evolve T)) ops
 
 end HcipyVerif.Scheduler
